@@ -6,19 +6,25 @@ parse(run, bytes) -> ('ok', node) | ('fail', reason)
 node: ('null',) | ('bool',bool) | ('int', sign, [digit byte terms]) | ('float',) | ('str',[byte terms]) | ('arr',[nodes]) | ('obj',[(key byte terms,node),...])
 """
 import z3
-from mirsym.values import Bool
+from mirsym.values import Bool, allowed
 
 class Fail(Exception): pass
 
 def _is(run,x,c):
     if isinstance(x,int): return x==c
+    ax=allowed(x)
+    if ax is not None and c not in ax: return False
     return run.branch_bool(Bool(x==c),'json.is')
 def _in(run,x,lo,hi):
     if isinstance(x,int): return lo<=x<=hi
+    ax=allowed(x)
+    if ax is not None:
+        if all(lo<=v<=hi for v in ax): return True
+        if not any(lo<=v<=hi for v in ax): return False
     return run.branch_bool(Bool(z3.And(z3.UGE(x,lo),z3.ULE(x,hi))),'json.in')
 
 class P:
-    def __init__(self,run,b): self.run=run; self.b=b; self.i=0
+    def __init__(self,run,b,mode='rfc8259'): self.run=run; self.b=b; self.i=0; self.mode=mode
     def peek(self):
         if self.i>=len(self.b): raise Fail('eof')
         return self.b[self.i]
@@ -63,6 +69,13 @@ class P:
         while True:
             x=self.peek()
             if _is(run,x,0x22): self.i+=1; return out
+            if _is(run,x,0x5c) and self.mode=='olpc':
+                # OLPC canonical JSON: the only escapes are \" and \\ ; every other byte is literal
+                self.i+=1; e=self.peek(); self.i+=1
+                if _is(run,e,0x22): out.append(0x22)
+                elif _is(run,e,0x5c): out.append(0x5c)
+                else: raise Fail('escape not allowed in OLPC canonical JSON')
+                continue
             if _is(run,x,0x5c):
                 self.i+=1; e=self.peek(); self.i+=1
                 simple={0x22:0x22,0x5c:0x5c,0x2f:0x2f,0x62:8,0x66:12,0x6e:10,0x72:13,0x74:9}
@@ -85,7 +98,7 @@ class P:
                         if not run.branch_bool(Bool(z3.ULT(v,0x80)),'json.u00'): raise Fail('symbolic \\u00XX >= 0x80')
                         out.append(v)
                 continue
-            if _in(run,x,0,0x1f): raise Fail('raw control character in string')
+            if self.mode!='olpc' and _in(run,x,0,0x1f): raise Fail('raw control character in string')
             out.append(x); self.i+=1
     def arr(self):
         run=self.run; self.i+=1; items=[]
@@ -108,8 +121,8 @@ class P:
             if _is(run,x,0x7d): return ('obj',items)
             if not _is(run,x,0x2c): raise Fail('object separator')
 
-def parse(run,b):
-    p=P(run,list(b))
+def parse(run,b,mode='rfc8259'):
+    p=P(run,list(b),mode)
     try:
         v=p.value()
         if p.i!=len(p.b): return ('fail','trailing bytes')
@@ -135,3 +148,37 @@ def int_value(neg,ds):
         dv=z3.IntVal(d-0x30) if isinstance(d,int) else z3.BV2Int(d-0x30)
         v=v*10+dv
     return -v if neg else v
+
+def same(exp,node):
+    """z3 term: parsed `node` equals the expected tree `exp`.
+    exp: ('null',) | ('bool',z3 Bool/bool) | ('intval', width, signed, value term or int) | ('str',[bytes]) | ('arr',[exp]) | ('obj',[(key bytes,exp)])
+    objects: same member count, every expected member present with an equal value, parsed keys strictly ascending"""
+    k=exp[0]
+    if k=='null': return z3.BoolVal(node==('null',))
+    if k=='bool':
+        if node[0]!='bool': return z3.BoolVal(False)
+        b=exp[1]
+        if isinstance(b,bool): return z3.BoolVal(b==node[1])
+        return b if node[1] else z3.Not(b)
+    if k=='intval':
+        if node[0]!='int' or len(node[2])>20: return z3.BoolVal(False)
+        _,w,signed,val=exp; W=72
+        mag=z3.BitVecVal(0,W)
+        for d in node[2]:
+            mag=mag*10+(z3.BitVecVal(d-0x30,W) if isinstance(d,int) else z3.ZeroExt(W-8,d-0x30))
+        v=z3.BitVecVal(val,w) if isinstance(val,int) else val
+        if not signed: return z3.And(z3.BoolVal(not node[1]),mag==z3.ZeroExt(W-w,v))
+        if node[1]: return z3.And(v<0,mag==z3.ZeroExt(W-w,0-v))
+        return z3.And(v>=0,mag==z3.ZeroExt(W-w,v))
+    if k=='str':
+        if node[0]!='str': return z3.BoolVal(False)
+        return bytes_eq_t(exp[1],node[1])
+    if k=='arr':
+        if node[0]!='arr' or len(node[1])!=len(exp[1]): return z3.BoolVal(False)
+        return z3.And(*[same(x,y) for x,y in zip(exp[1],node[1])]) if exp[1] else z3.BoolVal(True)
+    if k=='obj':
+        if node[0]!='obj' or len(node[1])!=len(exp[1]): return z3.BoolVal(False)
+        cs=[z3.Or(*[z3.And(bytes_eq_t(ek,pk),same(ev,pv)) for pk,pv in node[1]]) for ek,ev in exp[1]]
+        for (a,_),(b,_) in zip(node[1],node[1][1:]): cs.append(bytes_lt(a,b))
+        return z3.And(*cs) if cs else z3.BoolVal(True)
+    raise ValueError(k)
